@@ -140,7 +140,9 @@ class Connect(Contract):
 class BuildRequest(Contract):
     """ASSUMED here (string code; bounded stand-in bounded/request.py): returns the request bytes"""
     def result(self, ip, a, old):
-        return mk(ip, T.Bytes(BYTES), 'request')
+        b = mk(ip, T.Bytes(BYTES), 'request')
+        ip.st.assume(b.n >= 16, b.at(IntVal(0)) == 71)      # 'GET ...' (request syntax: bounded stand-in)
+        return b
 
 
 @contract('lomond.session.WebsocketSession._send_request', serves=['C09', 'C10', 'C19'])
